@@ -475,6 +475,9 @@ type j_fexprCtx struct {
 // path renders record.A.B as "A.B" if e is a selector chain on the record.
 func (c *j_fexprCtx) path(e ast.Expr) (string, bool) {
 	var parts []string
+	if ue, ok := j_unparen(e).(*ast.UnaryExpr); ok && ue.Op == token.AND {
+		e = ue.X // &record.A.B: the same field, passed by pointer
+	}
 	for {
 		switch x := j_unparen(e).(type) {
 		case *ast.SelectorExpr:
